@@ -304,12 +304,12 @@ def main(tier):
     chk.assumptions += ['a model key is a block of 250 distinct patterns, so lru_cache(500) is observed as K = 2 (all-or-nothing blocks)',
                         'cache_info() is trusted as the projection of the cache state',
                         'attribute-level mutation of the internal Namespaces/CustomSelectors mapping objects is not gated; flags=True vs 1 is not gated']
-    depth = 3 if tier == 'quick' else 4
+    depth = 3 if tier == 'quick' else 5
     consts = {'NKeys': NKEYS, 'K': 2, 'Depth': depth}
     inv = ('Emit', 'Bounded', 'NoDup', 'StatsSound', 'PurgeEmpties', 'CacheIsRecent')
     replay.stream(chk, 'MC_C15', consts, 'lru-bfs%d' % depth, _work, None, is_header=lambda v: False, invariants=inv, chunk=6)
     # longer behaviours
-    num, d2 = (120, 9) if tier == 'quick' else (1500, 14)
+    num, d2 = (120, 9) if tier == 'quick' else (6000, 16)
     cases = []
     cfg = replay.write_cfg('lru-sim', {'NKeys': NKEYS, 'K': 2, 'Depth': d2}, invariants=inv, next_='NextSim')
     try:
